@@ -17,31 +17,6 @@ import (
 // C02, schedule part: the RIBs stay consistent with the sessions under interleavings of a peer's
 // receive goroutine with its own removal / session loss.
 
-// c02SchedCheck: nothing in the Loc-RIB from a peer that was removed or whose session ended;
-// every Adj-RIB-In of a non-established peer is empty.
-func c02SchedCheck(w *schedWorld, tag string) {
-	live := map[string]bool{}
-	for _, b := range w.bots {
-		p := w.peer(b)
-		if p != nil && p.State() == bgp.BGP_FSM_ESTABLISHED {
-			live[b.addr().String()] = true
-		}
-		if p != nil && p.State() != bgp.BGP_FSM_ESTABLISHED {
-			if n := len(w.adjInDump(p)); n != 0 {
-				w.violate("C02:sched:"+tag+":adj-rib-in-of-ended-session-not-empty", "%s: session of %s has ended but its Adj-RIB-In holds %d routes", tag, b.spec.Name, n)
-			}
-		}
-	}
-	for _, r := range w.ribDump(w.s.globalRib) {
-		if r.Src != "local" && !live[r.Src] {
-			w.violate("C02:sched:"+tag+":loc-rib-route-from-ended-session-or-removed-peer",
-				"%s: the Loc-RIB holds %s %s learned from %s, which is no longer an established configured peer", tag, r.Fam, r.Prefix, r.Src)
-		}
-	}
-	w.stat("rib-checked")
-	schedCheckExport(w, tag)
-}
-
 func init() {
 	rs := &simRoutesScenario{}
 	ann := func(w *schedWorld, bot, pfx, variant int) *bgp.BGPMessage {
